@@ -4,6 +4,7 @@ CONSTANTS
   ReadOps = {"object.get"}
   WriteOps = {"object.set", "ws.remove"}
   ProbeOps = {"ws.set", "object.call"}
+  RepeatOps = {"object.set"}
   Helpers = {"read_ui_json", "monitored_copy"}
   MaxVersion = 5
   MaxDepth = 5
